@@ -146,26 +146,27 @@ func init() {
 }
 
 // verifBowtieHole: a fixed square shell around the window and a self-crossing four-vertex hole whose vertices are
-// pinned to the four pixels of the window in Z order (an invalid polygon: the hole's net orientation depends on the
+// pinned to the pixels (5,5),(10,5),(5,10),(10,10) in Z order (two lobes of nearly equal size) (an invalid polygon: the hole's net orientation depends on the
 // sub-pixel positions and on the tile matrix).
 func verifBowtieHole(mode int) geom.Polygon {
-	shell := [][2]float64{{5, 5}, {11, 5}, {11, 11}, {5, 11}}
-	hole, _ := verifPinnedRing("h", [][2]int{{7, 7}, {8, 7}, {7, 8}, {8, 8}}, mode)
+	shell := [][2]float64{{2, 2}, {14, 2}, {14, 14}, {2, 14}}
+	hole, _ := verifPinnedRing("h", [][2]int{{5, 5}, {10, 5}, {5, 10}, {10, 10}}, mode)
 	return geom.Polygon{shell, hole}
 }
 
+// quick variant: two of the four hole vertices jitter on the 1/8-pixel lattice, the other two sit on pixel centres
 func VerifC05BowtieHole() {
-	poly := verifBowtieHole(verifHalf)
+	shell := [][2]float64{{2, 2}, {14, 2}, {14, 14}, {2, 14}}
+	h01, _ := verifPinnedRing("h", [][2]int{{5, 5}, {10, 5}}, verifEighth)
+	hole := [][2]float64{h01[0], h01[1], {5.5, 10.5}, {10.5, 10.5}}
 	for _, reverse := range []bool{false, true} {
-		verifC05One(poly, reverse, []tms20.TMID{0, 1})
+		verifC05One(geom.Polygon{shell, hole}, reverse, []tms20.TMID{1, 0})
 	}
 }
 
 func VerifC05BowtieHoleEighth() {
 	poly := verifBowtieHole(verifEighth)
-	for _, reverse := range []bool{false, true} {
-		verifC05One(poly, reverse, []tms20.TMID{0, 1, 2})
-	}
+	verifC05One(poly, false, []tms20.TMID{1})
 }
 
 func VerifC06BowtieHole() {
